@@ -45,8 +45,9 @@ def script(rng, kinds, workload, feedback, n, timed):
         roles = [{"a": "wrtp", "s": 1, "w": w % 65536, "id": 1, "len": 100, "shape": 0, "fail": False, "rep": n, "inc": 1, "gap": gap},
                  {"a": "rrtp", "s": 2, "w": (w * inc) % 65536, "id": 1, "len": 100, "shape": 0, "tw": (w * inc) % 65536, "fail": False,
                   "rep": n, "inc": inc, "gap": gap}]
-        if workload == "dup":
+        if workload == "dup":            # the same numbers are received twice and sent twice (retransmission without RTX)
             roles.append(dict(roles[1]))
+            roles.append(dict(roles[0]))
         if feedback:
             roles.append({"a": "rrtcp", "s": 1, "kind": "ccfb", "w": w % 65536, "tw": w % 65536, "id": 1, "fail": False,
                           "rep": n // 3, "inc": 3, "gap": gap * 3})
@@ -57,7 +58,7 @@ def script(rng, kinds, workload, feedback, n, timed):
         if feedback:   # acknowledge the tail of the phase so that report-driven histories are drained at the boundary
             steps.append({"a": "rrtcp", "s": 1, "kind": "ccfb", "w": (w + n - 3) % 65536, "tw": 0, "id": 1, "fail": False})
         steps.append({"a": "heap", "ms": 30, "kind": "phase"})
-        w += n
+        w += n + (7 if workload == "loss" else 0)     # lossy workload: the sender skips numbers between phases as well
     steps += [{"a": "unbindl", "s": 1}, {"a": "unbindm", "s": 2}, {"a": "close"}, {"a": "heap", "ms": 50, "kind": "final"}]
     return {"members": members, "steps": steps, "watch": 120000, "settle": 5, "nowire": True}
 
@@ -80,7 +81,8 @@ def run(ctx):
     n = 3000 if ctx.quick else 60000
     scripts = []
     for k in KINDS:
-        combos = ([("loss", True)] if k in TIMED else [("inorder", True), ("loss", True), ("dup", False)]) if ctx.quick else \
+        combos = (([("loss", True), ("dup", True)] if k in ("cc", "ccleaky") else [("loss", True)]) if k in TIMED
+                  else [("inorder", True), ("loss", True), ("dup", False)]) if ctx.quick else \
                  [(wl, fb) for wl in ("inorder", "loss", "dup") for fb in (True, False)]
         for wl, fb in combos:
             scripts.append(script(rng, [k], wl, fb, n if k not in TIMED or not ctx.quick else 2000, k in TIMED))
